@@ -1030,7 +1030,7 @@ func onlyConstructedBy(p *an.Prog, fv *types.Var) bool {
 
 func checkReplyID(p *an.Prog, r *an.Run) {
 	h := p.Method("jsonrpc2", "Server", "Handle")
-	hr := p.Method("jsonrpc2", "Remote", "handleRequest")
+	hr := requestHandlerOf(p)
 	if h == nil || hr == nil {
 		r.Undec("reply-id", "jsonrpc2", token.NoPos, "Server.Handle / Remote.handleRequest not found")
 		return
@@ -1125,7 +1125,13 @@ func checkReplyID(p *an.Prog, r *an.Run) {
 		if in := an.PathAvoiding(hr, nil, func(in ssa.Instruction) bool { return in == write.(ssa.Instruction) }, an.IsReturn, nil); in != nil {
 			bad = append(bad, "a path returns at "+p.Pos(in.Pos())+" without writing a reply")
 		}
-		if methodArgs(handle)[1] != ssa.Value(hr.Params[1]) {
+		isMsgPrm := false
+		for _, prm := range hr.Params {
+			if methodArgs(handle)[1] == ssa.Value(prm) && strings.HasSuffix(prm.Type().String(), "jsonrpc2.Message") {
+				isMsgPrm = true
+			}
+		}
+		if !isMsgPrm {
 			bad = append(bad, "the message dispatched is not the one received")
 		}
 	}
